@@ -606,7 +606,16 @@ def pair(V, accel, kind, group, light=False):
     return cl
 
 
-FUNCS = {"pair": pair}
+def waits(V, **params):
+    """KERNEL_WAIT / DMA_WAIT words precede the operation they guard: the generator's operation loop on op-kind sequences over an arbitrary
+    conflict relation, checked against the two-queue hardware monitor (harness/c04.py waits; registered here for sequences of three and four
+    operations, which the two-operation `pair` streams cannot express)"""
+    from harness import c04
+
+    return c04.waits(V, **params)
+
+
+FUNCS = {"pair": pair, "waits": waits}
 
 
 def instances(tier, seed):
@@ -624,4 +633,10 @@ def instances(tier, seed):
             out.append(dict(key="pair/%s/ew/%s" % (accel, gname), fn="pair", params=dict(accel=accel, kind="ew", group=gname), weight=100))
         for gname in ("dma", "dma_mode"):
             out.append(dict(key="pair/%s/dma/%s" % (accel, gname), fn="pair", params=dict(accel=accel, kind="dma", group=gname), weight=100))
+    import itertools
+
+    for accel in ("Ethos_U55_128", "Ethos_U65_256"):
+        for n in (3, 4):
+            for seq in itertools.product("DK", repeat=n):
+                out.append(dict(key="waits/%s/%s" % (accel, "".join(seq)), fn="waits", params=dict(seq="".join(seq), accel=accel), weight=10))
     return out
